@@ -343,7 +343,7 @@ func (c *Canon) RenderResult(r ProbeResult) string {
 		return "PANIC(" + r.Panic + ")"
 	case r.Err != "":
 		return "ERR(" + r.Err + ")"
-	case r.C != nil:
+	case r.C != nil || r.V != nil && str(r.V["t"]) == "counters":
 		ks := make([]string, 0, len(r.C))
 		for k, v := range r.C {
 			ks = append(ks, fmt.Sprintf("%s=%d", k, v))
